@@ -55,6 +55,7 @@ class Conn:
         self.done = {}
         self.fetches = {}
         self.healthy = True       # kernel accepts everything the daemon writes
+        self.slow = False         # healthy, but the kernel takes the daemon's bytes later than they are generated
         self.ended = None         # 'eof' | 'rst' once the driver ended it
         self.closed = False       # daemon closed the descriptor
         self.accepted = False
@@ -958,7 +959,12 @@ class Session:
                 self._peer_gone(c)
             if c.closed or d["state"] in ("closed", "dropped"):
                 c.wire_done = True
-            if c.healthy:
+            if c.healthy and c.slow:
+                # a reader that is merely slow: what it has received so far is a prefix of what was generated for it
+                if not bytes(c.expected_wire).startswith(bytes(c.wire)):
+                    self.v("wire/stream-not-a-prefix-of-generated-frames", "on %s (slow reader): wire %d bytes, generated %d bytes" % (c.name, len(c.wire), len(c.expected_wire)))
+                    c.healthy = False
+            elif c.healthy:
                 if bytes(c.wire) != bytes(c.expected_wire):
                     self.v("wire/stream-differs-from-generated-frames", "on %s: wire %d bytes, generated %d bytes" % (c.name, len(c.wire), len(c.expected_wire)))
                     c.healthy = False
